@@ -702,7 +702,7 @@ pub fn strategy(kind: &str, max: usize) -> BoxedStrategy<Spec> {
         "trun" => trun_s(max).prop_map(Spec::Trun).boxed(),
         "traf" => (bx(strategy("tfhd", max)), obx(strategy("tfdt", max)), obx(strategy("trun", max))).prop_map(|(tfhd, tfdt, trun)| Spec::Traf { tfhd, tfdt, trun }).boxed(),
         "moof" => (bx(strategy("mfhd", max)), prop::collection::vec(strategy("traf", max), 0..=max.min(2))).prop_map(|(mfhd, trafs)| Spec::Moof { mfhd, trafs }).boxed(),
-        "emsg" => (ver01(), flags24(), u32v(), u64v(), u32v(), u32v(), u32v(), "[ -~]{0,10}", "[ -~]{0,6}", bytes(9)).prop_map(|(version, flags, timescale, ptime, pdelta, event_duration, id, scheme, value, data)| Spec::Emsg { version, flags, timescale, ptime, pdelta, event_duration, id, scheme, value, data }).boxed(),
+        "emsg" => (ver01(), flags24(), u32v(), u64v(), u32v(), u32v(), u32v(), text(), text(), bytes(9)).prop_map(|(version, flags, timescale, ptime, pdelta, event_duration, id, scheme, value, data)| Spec::Emsg { version, flags, timescale, ptime, pdelta, event_duration, id, scheme, value, data }).boxed(),
         "data" => data_s().prop_map(Spec::Data).boxed(),
         "ilst" => items_s().prop_map(|items| Spec::Ilst { items }).boxed(),
         "meta" => meta_s().prop_map(Spec::Meta).boxed(),
